@@ -1385,7 +1385,7 @@ class ManyRows(IsoEntry):
             sizes = sorted({(1 << k) + d for k in range(10, 18) for d in (-1, 0, 1)} | {100003})
             for ep in EPS:
                 for n in sizes:
-                    add(ep, n, rowsize_for(n, 400000))
+                    add(ep, n, rowsize_for(n, 250000))
         return cs
 
     def post(self, c, out):
